@@ -3,7 +3,8 @@ import concurrent.futures as cf
 from fractions import Fraction
 
 import common
-from common import cz, cnat, cres
+from common import cz, cnat, cres, clist
+import gens
 
 PID = "C19"
 RULE = ("the argument grammar (int, bool, numpy integer; float, Fraction, numpy float - integral, non-integral and "
@@ -76,6 +77,25 @@ def gen_cases(rng, tier):
         for none, ns in [(True, 0), (True, 1), (True, 2), (False, 0), (False, 1)]:
             for style in ("tuple", "list", "iterator", "generator", "filter"):
                 cases.append({"kind": "rollnone", "none": none, "ns": ns, "bt": bt, "style": style})
+    import evalcommon as ec
+    q = gens.q
+    for bt in (False, True):
+        for name in ec.REJECTS:
+            for lim in (["int", 2], ["int", 3], ["frac", 1, 5], None):
+                # "a rejected call leaves every existing object unchanged and usable" - the evaluator included: a callback
+                # of a nested evaluation makes the rejected call, the enclosing callback catches the exception and goes on
+                # with another nested evaluation, which must see the enclosing limit, depth and precision
+                coin = {"h": [[q(1), 1], [q(2), 1]]}
+                mech = {"states": [
+                    {"srcs": [coin], "npos": 0, "sentinel": [[q(0), 1]],
+                     "table": [[[[q(1)]], ["try", "Exception", ["call", 1, None], ["addc", q(10), ["call", 2, None]]]],
+                               [[[q(2)]], ["try", "Exception", ["call", 1, None], ["addc", q(20), ["call", 2, None]]]]]},
+                    {"srcs": [coin], "npos": 1, "sentinel": [[q(50), 1]],
+                     "table": [[[[q(1)]], ["out", q(1)]], [[[q(2)]], ["reject", name]]]},
+                    {"srcs": [coin], "npos": 0, "sentinel": [[q(70), 1]],
+                     "table": [[[[q(1)]], ["out", q(1)]], [[[q(2)]], ["addc", q(1), ["call", 2, None]]]]}]}
+                cases.append({"kind": "mech_reject", "mech": mech, "calls": [[0, lim], [2, None], [0, ["int", 1]]], "bt": bt,
+                              "foreach": name in ("neg_count", "index_oob")})
     for bt in (False, True):
         for mode in ("replace", "append", "default"):
             for ns in (0, 1):
@@ -200,6 +220,10 @@ def impl_run(case):
             else:
                 h.substitute(lambda hh, o: o, **kw)
             out = {"ok": 0}
+        elif k == "mech_reject":
+            import evalcommon as ec
+            answers, _ = ec.run_mech_impl(case["mech"], [tuple(c) for c in case["calls"]], use_foreach=case.get("foreach", False))
+            out = {"ok": 0, "answers": answers}
         elif k == "adoptnone":
             # a None-valued outcome (a tombstone) re-parented: without sources it is as illegal as at construction
             from dyce.r import CoalesceMode, Roll
@@ -290,6 +314,13 @@ def coq_check(case, r):
         return f"chk_guard_unit (both_limits_guard {'true' if case['md'] else 'false'} {'true' if case['pl'] else 'false'}) {ok} {e}"
     if k == "rollnone":
         return f"chk_guard_unit (roll_outcome_guard {'true' if case['none'] else 'false'} {cnat(case['ns'])}) {ok} {e}"
+    if k == "mech_reject":
+        import evalcommon as ec
+        from props.C06 import _cans
+        exps = [_cans(a) for a in r.get("answers", [])]
+        if "answers" not in r or any(x is None for x in exps):
+            return "MISMATCH"
+        return f"(Nat.eqb (chk_mech {ec.cmech(case['mech'])} None {ec.ccalls(case['calls'])} {clist(exps)}) 0)"
     if k == "adoptnone":
         nsrc = case["ns"] + (1 if case["mode"] == "append" else 0)
         return f"chk_guard_unit (roll_outcome_guard true {cnat(nsrc)}) {ok} {e}"
@@ -350,6 +381,10 @@ def oracle(case):
         return {"exc": ["ValueError"]} if (case["none"] and case["ns"] == 0) else {"ok": 0}
     if k == "adoptnone":
         return {"exc": ["ValueError"]} if (case["ns"] == 0 and case["mode"] != "append") else {"ok": 0}
+    if k == "mech_reject":
+        import evalcommon as ec
+        o = ec.oracle_calls(case["mech"], [tuple(c) for c in case["calls"]])
+        return None if o is None else {"ok": 0, "answers": [{"dist": ec.dist_json(a["dist"])} if "dist" in a else a for a in o]}
 
 
 def agree(case, r, o):
@@ -357,6 +392,10 @@ def agree(case, r, o):
         return False
     if "exc" in o:
         return r.get("exc") in o["exc"]
+    if "answers" in o:
+        import evalcommon as ec
+        oo = [{"dist": {Fraction(*k): Fraction(*v) for k, v in a["dist"]}} if "dist" in a else a for a in o["answers"]]
+        return "answers" in r and ec.agree_answers(r["answers"], oo)
     return "ok" in r and r["ok"] == o["ok"]
 
 
